@@ -665,8 +665,13 @@ func (engine) Run(ci any) lib.Result {
 				used[par] = lib.CoqN(letterN[ls[0]])
 			}
 		}
-		res.CoqTerm = lib.CoqApp("CasePack", sp.coq(), lib.CoqList(mapCoq(c.Chunks)),
-			coqRobs(obs.P[0]), coqSobs(obs.P[1]), coqRobs(obs.P[2]), coqSobs(obs.P[3]), lib.CoqList(used))
+		if whiteBox {
+			res.CoqTerm = lib.CoqApp("CasePack", sp.coq(), lib.CoqList(mapCoq(c.Chunks)),
+				coqRobs(obs.P[0]), coqSobs(obs.P[1]), coqRobs(obs.P[2]), coqSobs(obs.P[3]), lib.CoqList(used))
+		} else {
+			// without the white-box group the lambda runs as the only node of a graph: direct oracle only
+			tags = append(tags, "whitebox:off")
+		}
 		tags = append(tags, "nat:"+natStr(sp.Nat), fmt.Sprintf("pol:%d", sp.Pol), fmt.Sprintf("fail:%d", sp.Fail), fmt.Sprintf("nkind:%d", sp.Kind), fmt.Sprintf("anyout:%v", sp.AnyOut))
 		res.Nontrivial = natCount(sp.Nat) < 4
 	} else {
